@@ -68,6 +68,9 @@ CHECKS["C20"] = ("deviation-bounded exhaustive exploration of prompt scripts on 
 CHECKS["C16"] = ("bounded-exhaustive enumeration of program templates (item kind x placement) x layouts (filler lines, comments, final newline) with generator-known token positions: library-level source-map check on the real Preprocessor, every run-time message through the real CLI binary (plain and -i), and every single-token corruption (invalid character, unexpected token, truncation) at every token position plus semantic errors at first/middle/last line, with the reported line, column and text compared with the generator-known position",
     "34 templates (print, INT 3, divide error, unsupported AH x first/middle/last line, inside procedures, macro bodies, nested macros; loops) x 10 layouts; every emitted instruction maps into its source line (outermost macro use, closing brace for the implied ret); all messages cite the right line number and text; about 11 000 corrupted files: the diagnostic cites the line, column and text of the offending token, also on a last line without newline.",
     "DESIGN.md section 6 C16")
+CHECKS["C19"] = ("exhaustive enumeration of all iteration orders of the undefined-label hash set (hook) on the real CLI binary; explicit-state exploration of all pairs of instruction streams x all interleavings on two machines sharing one real Interpreter object versus isolated runs; exhaustive parser histories (all line sequences up to a bound followed by each probe) on the real Preprocessor, DataParser, Interpreter and, through prompt sessions of the binary, the print reader; relational oracle throughout",
+    "38 multi-error programs under all k! iteration orders (k<=4) must print identical output; a new machine is zero except FLAGS/CS after any history; 67 000 stream pairs x all interleavings (1.1 million runs) leave each machine as when run alone; 6 700 history/probe combinations per tier answer like fresh parser objects; reruns in separate processes and an 8-thread smoke run are repetition and labelled so.",
+    "DESIGN.md section 6 C19")
 NOT_YET = {}
 
 def main():
